@@ -264,7 +264,8 @@ func (f *Fragment) Encode(w io.Writer) error {
 		return fmt.Errorf("moof not set in fragment")
 	}
 	traf := f.Moof.Traf
-	if f.EncOptimize&OptimizeTrun != 0 {
+	// A track that got no sample in a multi-track fragment has no trun, so there is nothing to optimize
+	if f.EncOptimize&OptimizeTrun != 0 && traf != nil && traf.Trun != nil {
 		err := traf.OptimizeTfhdTrun()
 		if err != nil {
 			return err
@@ -289,7 +290,8 @@ func (f *Fragment) EncodeSW(sw bits.SliceWriter) error {
 		return fmt.Errorf("moof not set in fragment")
 	}
 	traf := f.Moof.Traf
-	if f.EncOptimize&OptimizeTrun != 0 {
+	// A track that got no sample in a multi-track fragment has no trun, so there is nothing to optimize
+	if f.EncOptimize&OptimizeTrun != 0 && traf != nil && traf.Trun != nil {
 		err := traf.OptimizeTfhdTrun()
 		if err != nil {
 			return err
